@@ -247,7 +247,7 @@ def run(chk) -> None:
         "Rust linters get module-level embeddings only",
     ]
     cfg = "mc/DocExamples_quick.cfg" if quick else "mc/DocExamples.cfg"
-    res = tlc.run("DocExamples", cfg, workers=NCPU, timeout=1500)
+    res = tlc.run("DocExamples", cfg, workers=NCPU, timeout=3000)
     if res.violation or res.error:
         raise MachineryError("DocExamples.tla: requirement laws fail or TLC error\n" + res.stdout[-3000:])
     chk.add_tlc("DocExamples/" + cfg, res)
